@@ -463,6 +463,13 @@ func c20Gen(r *Rng, n int) []string {
 		doc := sb.String()
 		jm := r.jsonMap(0)
 		jtxt := r.jsonText(jm)
+		if r.P(10) {
+			// a JSON document whose top-level value is an array (NewMapJson files it under "object")
+			jtxt = "[" + jtxt + r.Pick([]string{"", ",1", "," + r.jsonText(r.jsonMap(1)), `,"s"`}) + "]"
+			if r.P(20) {
+				jtxt = r.Pick([]string{"[1,2,3]", "[]", `[[{"a":1}]]`})
+			}
+		}
 		mx, err := mxj.NewMapXml([]byte(doc))
 		if err != nil {
 			continue
